@@ -15,6 +15,13 @@ KINDS = ["ValueError", "KeyError", "ZeroDivisionError", "TypeError", "NameError"
 #  ("tryre", a, catch, b)   try: a / except <catch>: b; raise      (b is evaluated for the calls it makes)
 #  ("tryfin", a, b)         try: a / finally: b
 #  the blocks b of tryre / tryfin contain no try of their own (the Lean model's `blocksSimple`)
+#  ("via", kind, e)         e, evaluated inside an EXTRA plain Python frame that belongs to the formula: kind
+#                           "gen" generator expression, "comp" list comprehension (a frame before Python 3.12),
+#                           "lam" a lambda called on the spot, "map" a lambda handed to map(), "sorted" a lambda handed
+#                           to sorted(key=), "def" a nested helper function.  The value, the calls, their order and the
+#                           errors are those of e (the Lean driver's reader drops the wrapper: the model has no frames);
+#                           what differs is the Python traceback - one more frame between the formula's own frame and
+#                           the next cells.  All kinds but "def" need an e that is one expression (`lambda_ok`).
 
 def sexp(e):
     t = e[0]
@@ -36,6 +43,8 @@ def sexp(e):
         return "(tryre %s %s %s)" % (sexp(e[1]), e[2], sexp(e[3]))
     if t == "tryfin":
         return "(tryfin %s %s)" % (sexp(e[1]), sexp(e[2]))
+    if t == "via":
+        return "(via %s %s)" % (e[1], sexp(e[2]))
     raise ValueError(e)
 
 
@@ -75,6 +84,12 @@ def parse_sexp(text):
             b = one()
             pos[0] += 1
             return (head, a, c, b)
+        if head == "via":
+            kind = toks[pos[0]]
+            pos[0] += 1
+            a = one()
+            pos[0] += 1
+            return ("via", kind, a)
         if head == "call":
             cid = int(toks[pos[0]])
             pos[0] += 1
@@ -106,7 +121,12 @@ def subexprs(e):
     elif t in ("try", "tryre"):
         yield from subexprs(e[1])
         yield from subexprs(e[3])
+    elif t == "via":
+        yield from subexprs(e[2])
 
+
+VIA_KINDS = ("gen", "comp", "lam", "map", "sorted", "def")
+VIA_EXPR_KINDS = ("gen", "comp", "lam", "map")      # rendered as ONE expression (usable inside a lambda formula too)
 
 TRY_KINDS = ("try", "tryre", "tryfin")
 
@@ -124,6 +144,8 @@ def lambda_ok(e):
     """can the body be given to modelx as one lambda expression (Renderer.render_lambda)?"""
     for x in subexprs(e):
         if x[0] in TRY_KINDS or (x[0] == "raise" and x[1] not in Renderer.LAMBDA_RAISE):
+            return False
+        if x[0] == "via" and x[1] not in VIA_EXPR_KINDS:
             return False
     return True
 
@@ -209,7 +231,23 @@ class Renderer:
         if t == "raise" and e[1] in self.LAMBDA_RAISE:
             self.calls[1] = "raise"
             return self.LAMBDA_RAISE[e[1]]
+        if t == "via" and e[1] in VIA_EXPR_KINDS:
+            return self.via_expr(e[1], self.lexpr(e[2]))
         raise ValueError("not renderable as a lambda: %r" % (e,))
+
+    def via_expr(self, kind, inner):
+        """`inner` (python source of one expression) evaluated once, in a frame of its own, as one expression"""
+        self.n_via = getattr(self, "n_via", 0) + 1
+        i = "_i%d" % self.n_via
+        if kind == "gen":
+            return "next(%s for %s in (0,))" % (inner, i)
+        if kind == "comp":
+            return "[%s for %s in (0,)][0]" % (inner, i)
+        if kind == "lam":
+            return "(lambda: %s)()" % inner
+        if kind == "map":
+            return "list(map(lambda %s: %s, (0,)))[0]" % (i, inner)
+        raise ValueError(kind)
 
     def tmp(self):
         self.n += 1
@@ -306,6 +344,26 @@ class Renderer:
             self.emit(e[3], ind + 1)
             self.put(ind + 1, "raise")
             return v
+        if t == "via":
+            kind = e[1]
+            v = self.tmp()
+            if kind == "def":
+                # a nested helper: the statements of e, in a frame of their own
+                h = "_h%s" % v[1:]
+                self.put(ind, "def %s():" % h)
+                a = self.emit(e[2], ind + 1)
+                self.put(ind + 1, "return %s" % a)
+                self.put(ind, "%s = %s()" % (v, h))
+                return v
+            if kind == "sorted":
+                # the callee is evaluated by the key function sorted() calls
+                h = "_h%s" % v[1:]
+                self.put(ind, "%s = []" % h)
+                self.put(ind, "sorted((0,), key=lambda _k: %s.append(%s))" % (h, self.lexpr(e[2])))
+                self.put(ind, "%s = %s[0]" % (v, h))
+                return v
+            self.put(ind, "%s = %s" % (v, self.via_expr(kind, self.lexpr(e[2]))))
+            return v
         if t == "tryfin":
             v = self.tmp()
             self.put(ind, "try:")
@@ -327,7 +385,7 @@ class Gen:
     the first argument decremented under the guard 0 < p0 (so every chain is finite)."""
 
     def __init__(self, rng, n_rn=2, n_ra=2, catch_all_p=0.15, raise_p=0.06, none_p=0.04,
-                 fail_cell_p=0.0, handled_seq_p=0.0, lam_p=0.0, space_p=0.0, block_p=0.0):
+                 fail_cell_p=0.0, handled_seq_p=0.0, lam_p=0.0, space_p=0.0, block_p=0.0, via_p=0.0):
         self.rng = rng
         self.n_rn, self.n_ra = n_rn, n_ra
         self.catch_all_p, self.raise_p, self.none_p = catch_all_p, raise_p, none_p
@@ -344,6 +402,10 @@ class Gen:
         #  block_p        a sub-expression `try: a except K: <calls>; raise` or `try: a finally: <calls>` - cells
         #                 evaluated while an exception passes through the formula (or on the way out of a value)
         self.block_p = block_p
+        #  via_p          a call is made inside an extra plain Python frame of the formula (generator expression,
+        #                 comprehension, lambda called / handed to map or sorted, nested def): same behaviour, one more
+        #                 frame in the Python traceback
+        self.via_p = via_p
         self.cur_space = 0
         self.no_try = False     # set per program: no formula handles a failure (the regime of the C02 theorems)
         self.failing = []
@@ -370,6 +432,12 @@ class Gen:
         if r < 0.93 + self.none_p:
             return ("none",)
         return ("lit", self.rng.randint(0, 3))
+
+    def maybe_via(self, e):
+        if not self.via_p or self.rng.random() >= self.via_p:
+            return e
+        kinds = VIA_KINDS if lambda_ok(e) else ("def",)
+        return ("via", self.rng.choice(kinds), e)
 
     def block(self, cid, nparams, arities, depth):
         """except-reraise / finally around a call (often of a cells that fails) or any expression; the block calls
@@ -410,7 +478,7 @@ class Gen:
             ar = arities[j]
             if self.rng.random() < 0.04:
                 ar = max(0, ar + self.rng.choice([-1, 1]))       # wrong arity: TypeError in the caller
-            return ("call", j, [self.expr(cid, nparams, arities, depth - 2) for _ in range(ar)])
+            return self.maybe_via(("call", j, [self.expr(cid, nparams, arities, depth - 2) for _ in range(ar)]))
         if r < 0.80 + self.raise_p:
             return ("raise", self.rng.choice([0, 1, 2, 0, 1, 2, 6]))
         if r < 0.95 and self.no_try:
@@ -425,7 +493,7 @@ class Gen:
         if nparams and self.rng.random() < 0.45:
             # self recursion on the first parameter
             rec_args = [("sub", ("p", 0), ("lit", 1))] + [self.leaf(nparams) for _ in range(nparams - 1)]
-            rec = ("call", cid, rec_args)
+            rec = self.maybe_via(("call", cid, rec_args))
             step = self.rng.choice([
                 ("add", rec, self.leaf(nparams)),
                 ("add", rec, e),
@@ -443,12 +511,13 @@ class Gen:
         r = self.rng.random()
         if self.failing and r < 0.4:
             j = self.rng.choice(self.failing)
-            call = ("call", j, [self.leaf(nparams) for _ in range(arities[j])])
+            call = self.maybe_via(("call", j, [self.leaf(nparams) for _ in range(arities[j])]))
             return call if self.rng.random() < 0.6 else ("add", call, self.leaf(nparams))
         if nparams and r < 0.6:
-            rec = ("call", cid, [("sub", ("p", 0), ("lit", 1))] + [self.leaf(nparams) for _ in range(nparams - 1)])
-            return ("if", ("lt", ("lit", 0), ("p", 0)), rec, ("raise", kind))
-        return ("raise", kind)
+            rec = self.maybe_via(("call", cid, [("sub", ("p", 0), ("lit", 1))] +
+                                  [self.leaf(nparams) for _ in range(nparams - 1)]))
+            return ("if", ("lt", ("lit", 0), ("p", 0)), rec, self.maybe_via(("raise", kind)))
+        return self.maybe_via(("raise", kind))
 
     def handled_then(self, cid, nparams, arities, rest):
         """(try: call … except …) k times, then `rest`"""
